@@ -1,5 +1,123 @@
 import ZoektModel.Basic.Proto
+import ZoektModel.C02.Spec
+import ZoektModel.C03.Render
 namespace ZoektModel.C02
-/-- stub: no model driver for C02 yet -/
-def main : IO Unit := ZoektModel.Proto.runLines (fun _ => ZoektModel.Proto.badCase "no model driver for C02")
+open ZoektModel ZoektModel.Proto ZoektModel.C03
+
+/-- atoms: `kind:wrap:known:cands` joined by `;` (`-` = none) -/
+def parseAtoms (s : String) : Option (List Atom) :=
+  if s == "-" then some [] else
+  (s.splitOn ";").mapM fun a =>
+    match a.splitOn ":" with
+    | [k, w, kn, cs] => do pure ⟨← k.toNat?, ← w.toNat?, (← kn.toNat?) == 1, ← parseCands cs⟩
+    | _ => none
+
+def parseHexList (s : String) : Option (List Bytes) :=
+  if s == "_" then some [] else (s.splitOn ";").mapM hexToBytes?
+
+def showPairs (l : List (Nat × Nat)) : String := showList (fun p => s!"{p.1}.{p.2}") l
+
+def parsePairs (s : String) : Option (List (Nat × Nat)) :=
+  if s == "-" then some [] else
+  (s.splitOn ",").mapM fun e =>
+    match e.splitOn "." with
+    | [a, b] => do pure (← a.toNat?, ← b.toNat?)
+    | _ => none
+
+/-- byte offsets at which the runes of `data` start, plus the end offset: the specification of `findOffset` -/
+def runeStarts : Nat → Bytes → Nat → List Nat
+  | _, [], pos => [pos]
+  | 0, b :: rest, pos => pos :: runeStarts (runeSize (b :: rest) - 1) rest (pos + 1)
+  | k + 1, _ :: rest, pos => runeStarts k rest (pos + 1)
+
+/-- the gathered ranges as the spec sees them: one group -/
+def candsAsRanges (l : List Cand) : List RRange := l.map fun c => ⟨c.fileName, c.off, c.sz⟩
+
+def parseKind (s : String) : Option QKind :=
+  if s == "multi" then some .multi
+  else if s == "occs" then some .occs
+  else if s == "re" then some .regexp
+  else if s.startsWith "sub:" then (hexToBytes? (s.drop 4).toString).map .substr
+  else none
+
+def handle (line : String) : String :=
+  let (inp, impl) := splitCase line
+  match fields inp with
+  -- gather <nameHex> <rootOr> <atoms>
+  | ["gather", nameHex, _rootOr, atoms] =>
+    match hexToBytes? nameHex, parseAtoms atoms with
+    | some name, some atoms =>
+      let model := showCands (gatherMatches name atoms)
+      match parseCands impl with
+      | none => badCase "impl cands"
+      | some got =>
+        -- statement on the implementation's output: ordered, disjoint, each one a candidate of a visited atom
+        let visited := collect atoms
+        let src := if visited.isEmpty then [⟨true, 0, name.length⟩] else visited
+        let fn := candsAsRanges (got.filter (·.fileName))
+        let ct := candsAsRanges (got.filter (!·.fileName))
+        if !(orderedDisjoint fn && orderedDisjoint ct) then specFail model "gather-order"
+        else if !(got.all fun c => src.contains c) then specFail model "gather-not-a-candidate"
+        else if !(isSortedCands got) then specFail model "gather-filename-first"
+        else answer model
+    | _, _ => badCase "gather fields"
+  -- brk <textHex> <cands>
+  | ["brk", textHex, cands] =>
+    match hexToBytes? textHex, parseCands cands with
+    | some text, some cands =>
+      let model := showCands (breakMatchesOnNewlines text cands)
+      match parseCands impl with
+      | none => badCase "impl cands"
+      | some got =>
+        let want := cands.flatMap fun c => (cutAtNL text c.off c.sz).map fun p => (⟨c.fileName, p.1, p.2⟩ : Cand)
+        if got == want then answer model else specFail model "break"
+    | _, _ => badCase "brk fields"
+  -- rom <offs> <runeOffsets>
+  | ["rom", offs, rs] =>
+    match natList? offs, natList? rs with
+    | some offs, some rs =>
+      let m := makeRuneOffsetMap offs
+      answer s!"m={showPairs (m.map fun c => (c.runeOffset, c.byteOffset))} res={showPairs (rs.map (lookup m))}"
+    | _, _ => badCase "rom fields"
+  -- findoff <fn> <idx> <contents> <names>: findOffset for every rune index 0..runeCount of document idx
+  | ["findoff", fn, idx, contents, names] =>
+    match bool? fn, idx.toNat?, parseHexList contents, parseHexList names with
+    | some fn, some idx, some contents, some names =>
+      let pc := Posting.ofDocs contents
+      let pn := Posting.ofDocs names
+      let plain := pc.plainASCII && pn.plainASCII
+      let doc := (if fn then names else contents).getD idx []
+      let n := runeCount doc
+      let p := if fn then pn else pc
+      let lim := if fn then none else some (readLen 4)
+      let model := showNatList ((List.range (n + 1)).map (findOffset p plain lim idx))
+      match natList? impl with
+      | none => if impl == "ERR" then specFail model "findoffset-error" else badCase "impl offsets"
+      | some got => if got == runeStarts 0 doc 0 then answer model else specFail model "findoffset"
+    | _, _, _, _ => badCase "findoff fields"
+  -- e2e <mode> <ctx> <contentHex> <nameHex> <kind> <cands>
+  | ["e2e", mode, ctx, dataHex, nameHex, kind, cands] =>
+    match ctx.toNat?, hexToBytes? dataHex, hexToBytes? nameHex, parseKind kind, parseCands cands with
+    | some ctx, some data, some name, some kind, some cands =>
+      if mode == "l" then
+        let model := match reportLines data name ctx cands with
+          | none => "PANIC"
+          | some lms => showLines lms
+        if impl == "PANIC" then specFail model "panic" else
+        match parseLines impl with
+        | none => badCase "impl lines"
+        | some lms =>
+          if checkP data name true kind cands (rangesOfLines lms) then answer model else specFail model "ranges-lines"
+      else if mode == "c" then
+        let model := showChunks (reportChunks data name ctx cands)
+        if impl == "PANIC" then specFail model "panic" else
+        match parseChunks impl with
+        | none => badCase "impl chunks"
+        | some cms =>
+          if checkP data name false kind cands (rangesOfChunks cms) then answer model else specFail model "ranges-chunks"
+      else badCase "mode"
+    | _, _, _, _, _ => badCase "e2e fields"
+  | _ => badCase "op"
+
+def main : IO Unit := runLines handle
 end ZoektModel.C02
